@@ -642,13 +642,26 @@ class Gen:
             if not dead:
                 return None
             t = r.choice(dead)
-            k = r.choice(["op", "measure", "kraus"])
+            k = r.choice(["op", "measure", "measure", "kraus", "povm"])
+            # a destroyed subsystem must be refused at every entry point, not only when asked itself
+            ens = ["state"]
+            if not isinstance(t, CustomState):
+                ens.append("env")
+            hd = self.handle_of(w, t)
+            if hd is not None:
+                ens += ["ce", "ce"]
+            en = r.choice(ens)
+            d = int(getattr(t, "dimensions", 2) or 2)
             if k == "op":
-                st = {"kind": "op", "gate": "X" if isinstance(t, Polarization) else "Creation", "targets": [w.sid(t)], "entry": "state"}
+                st = {"kind": "op", "gate": "X" if isinstance(t, Polarization) else "Creation", "targets": [w.sid(t)], "entry": en}
             elif k == "measure":
-                st = {"kind": "measure", "targets": [w.sid(t)], "entry": "state", "sep": True, "destructive": True}
+                st = {"kind": "measure", "targets": [w.sid(t)], "entry": en, "sep": bool(r.getrandbits(1)), "destructive": bool(r.getrandbits(1))}
+            elif k == "povm":
+                st = {"kind": "povm", "targets": [w.sid(t)], "entry": en, "ops": [mj(np.eye(d))], "destructive": bool(r.getrandbits(1))}
             else:
-                st = {"kind": "kraus", "targets": [w.sid(t)], "entry": "state", "ops": [mj(np.eye(2))]}
+                st = {"kind": "kraus", "targets": [w.sid(t)], "entry": en, "ops": [mj(np.eye(d))]}
+            if en == "ce":
+                st["h"] = hd
         return st
 
     def prelude(self, w):
